@@ -41,6 +41,19 @@ pub open spec fn fold(s: Seq<char>) -> Seq<char> {
 pub assume_specification[ str::eq_ignore_ascii_case ](a: &str, b: &str) -> (r: bool)
     ensures r == (fold(a@) == fold(b@));
 
+// str extensionality: a str is determined by its characters.  Verus keeps two notions apart - the value equality it uses for a
+// literal `match` arm / `s == "lit"` in specs, and equality of views, which is what exec `a == b` and eq_ignore_ascii_case talk
+// about - and has no rule connecting them; without one a template that compares with `if s == "lit"` instead of `match` could not
+// be verified against the same contract.  Assumed (broadcast in every program module); the per-file canary guards against an
+// inconsistent prelude.
+pub mod vx_axioms {
+    use super::*;
+    pub broadcast proof fn axiom_str_ext(a: &str, b: &str)
+        requires a@ == b@,
+        ensures #![trigger a@, b@] a == b
+    { admit(); }
+}
+
 // Plausible replacements for the calls the templates make get *uninterpreted* results, so that a changed
 // template fails an obligation instead of tripping "unsupported".
 pub uninterp spec fn vx_lower(s: Seq<char>) -> Seq<char>;
